@@ -12,6 +12,7 @@ import (
 	"net"
 	"os"
 	"path/filepath"
+	"reflect"
 	"strconv"
 	"sync"
 	"time"
@@ -24,7 +25,9 @@ import (
 	"github.com/hydrogen18/memlistener"
 	"google.golang.org/grpc"
 	"google.golang.org/grpc/codes"
+	healthpb "google.golang.org/grpc/health/grpc_health_v1"
 	grpcstatus "google.golang.org/grpc/status"
+	"google.golang.org/protobuf/runtime/protoiface"
 )
 
 type echoSrv struct {
@@ -93,6 +96,20 @@ func cmdGrpc(args []string) {
 		corpus = append(corpus, g.Tree(1+g.r.intn(5)))
 	}
 	corpus = append(corpus, &R{Op: "nil"})
+	// status errors that carry details: of a type every registry knows, of a type only the
+	// standard protobuf registry knows, and both
+	direct := map[int]error{}
+	withDetails := func(c codes.Code, msg string, ds ...protoiface.MessageV1) {
+		st, err := grpcstatus.New(c, msg).WithDetails(ds...)
+		if err != nil {
+			panic(err)
+		}
+		direct[len(corpus)] = st.Err()
+		corpus = append(corpus, &R{Op: "grpcstatus", I: []int64{int64(c)}, S: []string{msg + " +details"}})
+	}
+	withDetails(codes.NotFound, "known detail", grpcstatus.New(codes.Internal, "inner").Proto())
+	withDetails(codes.Unavailable, "foreign detail", &healthpb.HealthCheckResponse{Status: healthpb.HealthCheckResponse_NOT_SERVING})
+	withDetails(codes.Aborted, "both", &healthpb.HealthCheckResponse{Status: healthpb.HealthCheckResponse_SERVING}, grpcstatus.New(codes.Internal, "inner").Proto())
 	for i, r := range corpus {
 		id := "C20-" + strconv.Itoa(i)
 		var e error
@@ -101,6 +118,9 @@ func cmdGrpc(args []string) {
 			defer func() { recover() }()
 			ctx := &BuildCtx{}
 			e = r.Build(ctx)
+			if d, ok := direct[i]; ok {
+				e = d
+			}
 			for _, rf := range sentRefs() {
 				refs = append(refs, rf.Build(ctx, e))
 			}
@@ -131,6 +151,13 @@ func cmdGrpc(args []string) {
 			want, _ := gogostatus.FromError(e)
 			if !ok2 || st.Code() != want.Code() || st.Message() != want.Message() {
 				fail("a handler error that already is a gRPC status does not pass through unchanged", fmt.Sprintf("%v vs %v", got, e))
+				continue
+			}
+			// unchanged: exactly what a client without the interceptor receives
+			if reflect.TypeOf(got) != reflect.TypeOf(raw) || got.Error() != raw.Error() ||
+				fmt.Sprintf("%+v", got) != fmt.Sprintf("%+v", raw) || fmt.Sprint(grpcstatus.Convert(got).Proto()) != fmt.Sprint(grpcstatus.Convert(raw).Proto()) {
+				fail("a handler error that already is a gRPC status is not delivered as the client would receive it without the interceptor",
+					fmt.Sprintf("%T %+v vs %T %+v", got, got, raw, raw))
 			}
 			continue
 		}
